@@ -251,7 +251,9 @@ UniProg(xs, b, c) ==
      [] c = "sum-direct" -> <<RedE("$+", "dyn", CallE(V("mkit"), <<Hide(WBool, B(b))>>))>>
      [] c = "collect" -> <<Set("it", CallE(V("mkit"), <<Hide(WBool, B(b))>>)), CollectE(V("it"))>>
      [] c = "for" -> <<Set("it", CallE(V("mkit"), <<Hide(WBool, B(b))>>)), For("e", V("it"), Block(<<Mark(300)>>)), I(0)>>)
-UniSeq == SetToSeq({<<xs, b, c>> : xs \in {<<1, 2, 3>>, <<0, 1>>, <<3>>, <<2, 2>>}, b \in BOOLEAN, c \in UniCons})
+UniSeq == SetToSeq({<<xs, b, c>> : xs \in {<<1, 2, 3>>, <<0, 1>>, <<3>>, <<2, 2>>}, b \in BOOLEAN, c \in UniCons}
+                   \* the array is empty at run time and the int branch is taken: the sum of no ints is the int 0
+                   \cup {<< <<>>, FALSE, c>> : c \in {"sum", "sum-direct", "collect", "for"}})
 UniOut(i) == Outcome(Run(UniProg(UniSeq[i][1], UniSeq[i][2], UniSeq[i][3]), Fuel))
 RECURSIVE SumSeq(_)
 SumSeq(xs) == IF xs = <<>> THEN 0 ELSE Head(xs) + SumSeq(Tail(xs))
